@@ -24,7 +24,10 @@ let check inp obs =
               (match parse_version version with Some V0 -> "state-v0" | Some V1 -> "state-v1" | None -> "bad-version");
               (if nent < 0 then "undecodable" else if nent = 0 then "n-0" else if nent < 64 then "n-1..63"
                else if nent < 100 then "n-64..99" else "n-100+")] in
-  { prop_ok = (obs = spec); model_eq = (obs = model); nontrivial = (nent <> 0); finding = "-";
+  let guard = if ordered then guard_values_overrun data else guard_entries_overrun data in
+  let tags = tags @ (if guard then ["guard-bytes-overrun"] else []) in
+  { prop_ok = (obs = spec); model_eq = (obs = model); nontrivial = (nent <> 0);
+    finding = (if obs <> spec && guard then "bytes-overrun" else "-");
     tags = String.concat "," tags;
     detail = (if obs = spec && obs = model then "" else Printf.sprintf "host=%s spec=%s model=%s" obs spec model) }
 
